@@ -126,7 +126,7 @@ form('proto-call-world-path', { ops: ['concat'] }, F => `w.X${F.id()}.prototype.
 form('proto-apply-arraylit', { ops: ['concat'] }, F => `String.prototype.concat.apply(${F.loc()}, [${F.s()}, ${F.lit()}, ${F.f()}])`)
 form('proto-apply-empty', { ops: ['trim'] }, F => `String.prototype.trim.apply(${F.loc()}, [])`)
 form('proto-apply-variable-args', { ops: ['concat'], kf: 'D19' }, F => `String.prototype.concat.apply(${F.loc()}, w.arr${F.id()})`)
-form('proto-apply-hole', { ops: ['concat'], kf: 'D20' }, F => `String.prototype.concat.apply(${F.loc()}, [${F.f()}, , ${F.lit()}])`)
+form('proto-apply-hole', { ops: ['concat'] }, F => `String.prototype.concat.apply(${F.loc()}, [${F.f()}, , ${F.lit()}])`)
 form('proto-call-spread-this', { ops: ['concat'], nodemand: true }, F => `String.prototype.concat.call(...w.it${F.id()})`)
 form('proto-call-lit-this-litargs', { ops: ['concat'], instr: false }, F => `String.prototype.concat.call('⟦L${F.id()}⟧', 'x')`)
 form('proto-call-lit-this-args', { ops: ['concat'], nodemand: true }, F => `String.prototype.concat.call('⟦L${F.id()}⟧', ${F.loc()})`)
